@@ -33,6 +33,10 @@ func Generate(r *lib.Rng, tier string) *Case {
 	g.c.NoID = r.Chance(1, 25)
 	g.lists()
 	g.c.Twice = r.Chance(1, 4)
+	g.c.NoStore = g.c.NoID && r.Chance(1, 2)
+	if !g.c.NoID && r.Chance(1, 40) {
+		g.c.SetFailAt = r.Range(1, 3)
+	}
 	return g.c
 }
 
